@@ -26,6 +26,10 @@ fn arg<'a>(args: &'a [String], name: &str) -> Option<&'a str> {
 }
 
 fn main() {
+    // the harness does not depend on the zone of the host. chrono caches the zone per thread, so
+    // the zone is fixed per process: the check groups the cases by the zone they ask for
+    // (`NOTE tz`) and passes it in FVH_TZ
+    std::env::set_var("TZ", std::env::var("FVH_TZ").unwrap_or_else(|_| "UTC".to_string()));
     let args: Vec<String> = std::env::args().collect();
     if args.len() < 2 {
         eprintln!("usage: fvh gen|exec|child ...");
